@@ -145,6 +145,7 @@ func runC20(r *Run) {
 		r.guardOb("C20.purchase", pu, "sale-price transfer", func(fn *ssa.Function, ins ssa.Instruction) bool {
 			return ins == ssa.Instruction(debitSale) || ins == ssa.Instruction(creditSale)
 		}, g, "a name can be bought for less than its asking price")
+		checkSaleNotExpired(r, pu, creditSale)
 		r.guardOb("C20.purchase", pu, "credit to the previous owner", func(fn *ssa.Function, ins ssa.Instruction) bool { return ins == ssa.Instruction(creditSale) },
 			errCallG("buyer debit succeeded", []string{fnBalMinus}, nil, msgF(p, "Buyer")), "the seller is paid although the buyer could not be debited")
 	}
